@@ -68,7 +68,7 @@ def run(replay=None):
         bad = re.findall(r"\d+", m.group(1))
         if bad:
             ck.obligation_broken("correspondence C17: model and bundled decoder differ on %d class words, e.g. 0x%08x" % (len(bad), int(bad[0])), str(bad[:8]))
-    ck.coverage["rule"] = ("11 branch/address classes x 40 000 (quick) / 400 000 (thorough) random fills of the free bits incl. all-zero/all-one/alternating; the whole 32-bit space with a prime stride "
+    ck.coverage["rule"] = ("11 branch/address classes x 40 000 (quick) / 400 000 (thorough) random fills of the free bits incl. all-zero/all-one/alternating; every one of the 1 200 formats x 400 (6 000) field-segment fills (0 / ones / random); the whole 32-bit space with a prime stride "
                            "(quick: ~1M words) or completely (thorough: 2^32 words on 16 cores); per word: Decode and String must not panic, decodability / opcode / displacement equal the reference; "
                            "3 300 class words evaluated in Coq against the model; non-trivial = decodable class word")
     ck.coverage["samples"] = [{"w": "0x%08x" % s["w"], "op": s["op"], "pcrel": s["pcrel"]} for s in dec[:3]]
